@@ -20,6 +20,7 @@ class Serializer(object):
         self.__currentID = 0
         self.__transmissions = {}
         self.__incomingTransmissionFile = None
+        self.__incomingTransmissionReady = None
         self.__inMemorySerializedData = None
         self.__serializer = serializer
         self.__deserializer = deserializer
@@ -102,17 +103,39 @@ class Serializer(object):
                 self.__pid = -2
 
     def deserialize(self):
+        # A completely received snapshot that was not accepted yet takes precedence
+        incoming = self.__incomingTransmissionReady
         if self.__fileName is None:
-            with BytesIO(self.__inMemorySerializedData) as io:
+            data = incoming if incoming is not None else self.__inMemorySerializedData
+            with BytesIO(data) as io:
                 with gzip.GzipFile(fileobj=io, mode='rb') as g:
                     return pickle.load(g)
 
+        fileName = incoming if incoming is not None else self.__fileName
         if self.__deserializer is not None:
-            return (None,) + self.__deserializer(self.__fileName)
+            return (None,) + self.__deserializer(fileName)
         else:
-            with open(self.__fileName, 'rb') as f:
+            with open(fileName, 'rb') as f:
                 with gzip.GzipFile(fileobj=f) as g:
                     return pickle.load(g)
+
+    def acceptTransmission(self, accept):
+        """Make a completely received snapshot this node's own snapshot (accept=True) or drop it."""
+        incoming = self.__incomingTransmissionReady
+        self.__incomingTransmissionReady = None
+        if incoming is None:
+            return
+        if self.__fileName is None:
+            if accept:
+                self.__inMemorySerializedData = incoming
+            return
+        try:
+            if accept:
+                atomicReplace(incoming, self.__fileName)
+            else:
+                os.remove(incoming)
+        except Exception:
+            logger.exception('Failed to %s the received snapshot' % ('store' if accept else 'remove'))
 
     def getTransmissionData(self, transmissionID):
         if self.__pid != 0:
@@ -158,6 +181,8 @@ class Serializer(object):
         if data is None:
             return False
         data, isFirst, isLast = data
+        if isFirst:
+            self.__incomingTransmissionReady = None
 
         # In-memory case
         if self.__fileName is None:
@@ -167,7 +192,7 @@ class Serializer(object):
                 return False
             self.__incomingTransmissionFile += pickle.to_bytes(data)
             if isLast:
-                self.__inMemorySerializedData = self.__incomingTransmissionFile
+                self.__incomingTransmissionReady = self.__incomingTransmissionFile
                 self.__incomingTransmissionFile = None
                 return True
             return False
@@ -194,11 +219,8 @@ class Serializer(object):
         if isLast:
             self.__incomingTransmissionFile.close()
             self.__incomingTransmissionFile = None
-            try:
-                atomicReplace(tmpFile, self.__fileName)
-            except:
-                logger.exception('Failed to rename temporary incoming transition file')
-                return False
+            # The dump file is replaced only once the snapshot was examined (see acceptTransmission)
+            self.__incomingTransmissionReady = tmpFile
             return True
         return False
 
